@@ -27,7 +27,7 @@ PUNCTS = ["%:%:", "<<=", ">>=", "->*", "...", "<%", "%>", "<:", ":>", "%:", "::"
           "{", "}", "[", "]", "#", "(", ")", ";", ":", "?", ".", "+", "-", "*", "/", "%", "^", "&", "|",
           "~", "!", "=", "<", ">", ","]
 TOK_RE = re.compile(
-    r"(?P<ws>(?:[ \t\r\n\f\v]|\\\n)+)"
+    r"(?P<ws>(?:[ \t\r\n\f\v]|\\\n|/\*.*?\*/)+)"
     r"|(?P<id>[A-Za-z_][A-Za-z0-9_]*)"
     r"|(?P<num>\.?[0-9](?:[eEpP][+-]|[0-9A-Za-z_.])*)"
     r'|(?P<str>"(?:[^"\\\n]|\\.)*")'
@@ -702,7 +702,8 @@ class Model(object):
                 va_raw = args[nva] if nva < len(args) else []
                 va_exp = self.expanded_arg(m, args, nva, cache)
                 if va_raw and not va_exp:
-                    raise Ambiguous("__VA_OPT__ with variable arguments that expand to nothing")
+                    # C++20 [cpp.subst]: what counts is the variable argument after macro expansion (gcc agrees)
+                    self.f.add("va-opt-args-expand-empty")
                 if va_exp:
                     self.f.add("va-opt-taken")
                     seq = [t for t in self.subst_seq(m, n[1], args, cache, name)]
@@ -842,7 +843,7 @@ class Gen(object):
                     elif x < 0.16:
                         w = "   "
                     if multiline and depth > 0 and r.random() < 0.25:
-                        w = r.choice(["\n", "\n  ", " \n", "\n\n" if False else "\n\t"])
+                        w = r.choice(["\n", "\n  ", " \n", "\n\t", "/**/", " /* c, ( */ ", "/* ) */"])
                     s += w
             s += t
             if t == "(":
